@@ -196,6 +196,11 @@ func introspectRemoteSchema(factory QueryerFactory, url string) (*ast.Schema, er
 
 	}
 
+	// a cut off type reference can't be formatted, report it
+	if where := findCutOffTypeRef(schema); where != "" {
+		return nil, fmt.Errorf("type of %s is nested deeper than introspection query asks for", where)
+	}
+
 	// Reformat schema
 	schemaStr := formatSchema(schema)
 
@@ -205,6 +210,48 @@ func introspectRemoteSchema(factory QueryerFactory, url string) (*ast.Schema, er
 	}
 
 	return formattedSchema, nil
+}
+
+func isCutOffTypeRef(t *ast.Type) bool {
+	for t.Elem != nil {
+		t = t.Elem
+	}
+	return t.NamedType == ""
+}
+
+func findCutOffTypeRef(schema *ast.Schema) string {
+	checkArgs := func(prefix string, args ast.ArgumentDefinitionList) string {
+		for _, arg := range args {
+			if isCutOffTypeRef(arg.Type) {
+				return fmt.Sprintf("%s(%s:)", prefix, arg.Name)
+			}
+		}
+		return ""
+	}
+
+	typeNames := lo.Keys(schema.Types)
+	sort.Strings(typeNames)
+	for _, typeName := range typeNames {
+		for _, field := range schema.Types[typeName].Fields {
+			name := typeName + "." + field.Name
+			if isCutOffTypeRef(field.Type) {
+				return name
+			}
+			if where := checkArgs(name, field.Arguments); where != "" {
+				return where
+			}
+		}
+	}
+
+	directiveNames := lo.Keys(schema.Directives)
+	sort.Strings(directiveNames)
+	for _, directiveName := range directiveNames {
+		if where := checkArgs("@"+directiveName, schema.Directives[directiveName].Arguments); where != "" {
+			return where
+		}
+	}
+
+	return ""
 }
 
 func formatSchema(schema *ast.Schema) string {
@@ -370,7 +417,7 @@ func parseArgList(args []IntrospectionInputValue) ast.ArgumentDefinitionList {
 
 func parseTypeRef(response *IntrospectionTypeRef) *ast.Type {
 	// type reference is cut off (it's nested deeper than introspection query asks for),
-	// unnamed type will be rejected when schema is loaded
+	// unnamed type is reported by findCutOffTypeRef before schema is formatted
 	if response == nil {
 		return ast.NamedType("", &ast.Position{})
 	}
